@@ -532,7 +532,7 @@ static void mcount_watch_init(void)
 			struct uftrace_mmap *map = mcount_sym_info.exec_map;
 			struct uftrace_symbol *sym;
 
-			w = xmalloc(sizeof(*w));
+			w = xzalloc(sizeof(*w) + sizeof(long));
 			sym = find_symname(&map->mod->symtab, str + 4);
 			if (sym == NULL) {
 				pr_dbg("ignore watchpoint for %s\n", str);
